@@ -18,6 +18,7 @@ package vsix
 
 import (
 	"crypto"
+	"fmt"
 	"io"
 	"path"
 	"strings"
@@ -45,6 +46,9 @@ func mangleZip(r io.Reader, hash crypto.Hash) (*mangler, error) {
 	}
 	zm, err := inz.Mangle(func(f *zipslicer.MangleFile) error {
 		if keepFile(f.Name) {
+			if m.digests[f.Name] != nil {
+				return fmt.Errorf("duplicate zip member: %s", f.Name)
+			}
 			sum, err := f.Digest(hash)
 			if err != nil {
 				return err
